@@ -266,6 +266,15 @@ FUNCS = [
 	     calls={'get_progress': ('()', ('obj',), [])}, methods={('obj', 'increment'): ('()', ('obj',), [], None)}),
 	dict(name='check_index', file='util/indexing.py', qual='AdvancedIndexingMixin._check_index', module='PyCheckIndex',
 	     env=[], params=[('self_len', INT), ('i', INT)], ret=INT, self_len='self_len'),
+	# --- sigs/base.py (SignatureList): the list-backed collection delegates to a Python list (the methods return the updated list)
+	dict(name='siglist_getitem_int', file='sigs/base.py', qual='SignatureList._getitem_int', module='PySigList', env=[],
+	     params=[('self__list', LIST(LIST(INT))), ('i', INT)], ret=LIST(INT), self_as_vars=['_list']),
+	dict(name='siglist_setitem', file='sigs/base.py', qual='SignatureList.__setitem__', module='PySigList', env=[],
+	     params=[('self__list', LIST(LIST(INT))), ('i', INT), ('sig', LIST(INT))], ret=LIST(LIST(INT)), self_as_vars=['_list'], returns_param='self__list'),
+	dict(name='siglist_delitem', file='sigs/base.py', qual='SignatureList.__delitem__', module='PySigList', env=[],
+	     params=[('self__list', LIST(LIST(INT))), ('i', INT)], ret=LIST(LIST(INT)), self_as_vars=['_list'], returns_param='self__list'),
+	dict(name='siglist_insert', file='sigs/base.py', qual='SignatureList.insert', module='PySigList', env=[],
+	     params=[('self__list', LIST(LIST(INT))), ('i', INT), ('sig', LIST(INT))], ret=LIST(LIST(INT)), self_as_vars=['_list'], returns_param='self__list'),
 	# --- sigs/base.py (ConcatenatedSignatureArray) and util/indexing.py (the mixin's defaults): index plumbing of the packed collections.
 	#     A packed collection is (values, bounds); methods take them as leading parameters.
 	dict(name='concat_len', file='sigs/base.py', qual='ConcatenatedSignatureArray.__len__', module='PyConcat', env=[], params=[('self_values', LIST(INT)), ('self_bounds', LIST(INT))], ret=INT, self_attrs={'values': ('self_values', LIST(INT)), 'bounds': ('self_bounds', LIST(INT))}, self_len_expr='(((s.self_bounds).length : Int) - 1)', self_exprs={'LEN': '(((s.self_bounds).length : Int) - 1)', 'V': 's.self_values', 'B': 's.self_bounds'}),
@@ -1174,6 +1183,13 @@ class Fn:
 			if not self.gen: raise Untranslatable('yield in a function not declared a generator')
 			e = self.coerce(self.expr(v.value), self.gen, 'yielded value')
 			return self.guards(e.raises, ind) + f'{ind}let s : St := {{ s with yielded := s.yielded ++ [{e.lean}] }}\n'
+		if (isinstance(v, ast.Call) and isinstance(v.func, ast.Attribute) and v.func.attr == 'insert' and len(v.args) == 2 and not v.keywords
+				and isinstance(v.func.value, ast.Name) and self.vars.get(v.func.value.id, ('',))[0] == 'list'):
+			name = v.func.value.id
+			i = self.value(v.args[0])
+			x = self.coerce(self.expr(v.args[1]), self.vars[name][1], 'inserted value')
+			if i.ty != INT: raise Untranslatable('insert at a non-int position')
+			return self.guards(i.raises + x.raises, ind) + f'{ind}let s : St := {{ s with {name} := Py.listInsert s.{name} {i.lean} {x.lean} }}\n'
 		if isinstance(v, ast.Call) and isinstance(v.func, ast.Attribute) and v.func.attr == 'append' and len(v.args) == 1:
 			tgt = v.func.value
 			# rec.field.append(v) on a local record
@@ -1518,6 +1534,16 @@ class Fn:
 			if isinstance(x, ast.Try) and (self.has_break(x.body) or any(self.has_break(h.body) for h in x.handlers)): return True
 		return False
 
+	def s_Delete(self, st, ind):
+		if len(st.targets) != 1 or not (isinstance(st.targets[0], ast.Subscript) and isinstance(st.targets[0].value, ast.Name)
+		                                and self.vars.get(st.targets[0].value.id, ('',))[0] == 'list' and not isinstance(st.targets[0].slice, ast.Slice)):
+			raise Untranslatable(f'del statement at line {st.lineno}')
+		name = st.targets[0].value.id
+		i = self.value(st.targets[0].slice)
+		if i.ty != INT: raise Untranslatable('del with a non-int index')
+		return (self.guards(i.raises + [(f'(Py.getItem? s.{name} {i.lean}).isNone', 'IndexError')], ind)
+		        + f'{ind}let s : St := {{ s with {name} := Py.listDel s.{name} {i.lean} }}\n')
+
 	def s_With(self, st, ind):
 		out = ''
 		for it in st.items:
@@ -1705,6 +1731,19 @@ def rename_locals(node: ast.FunctionDef) -> ast.FunctionDef:
 	return ast.fix_missing_locations(R().visit(copy.deepcopy(node)))
 
 
+def self_attrs_to_names(node: ast.FunctionDef, attrs) -> ast.FunctionDef:
+	"""self.<attr> (for the listed attributes) becomes the local name self_<attr>: the method is read as a function of that state"""
+	import copy
+
+	class R(ast.NodeTransformer):
+		def visit_Attribute(self, n):
+			self.generic_visit(n)
+			if isinstance(n.value, ast.Name) and n.value.id == 'self' and n.attr in attrs:
+				return ast.copy_location(ast.Name(id='self_' + n.attr, ctx=n.ctx), n)
+			return n
+	return ast.fix_missing_locations(R().visit(copy.deepcopy(node)))
+
+
 def find_def(tree: ast.Module, qual: str):
 	parts = qual.split('.')
 	body = tree.body
@@ -1758,6 +1797,8 @@ def regenerate(repo: Path, out_dir: Path, stub: set = frozenset()) -> dict:
 			if [mangle(w) for w in want] != have or node.args.vararg or node.args.kwarg:
 				raise Untranslatable(f'parameters of {d["qual"]} are {want}, the declaration expects {have}')
 			node = rename_locals(node)
+			if d.get('self_as_vars'):
+				node = self_attrs_to_names(node, d['self_as_vars'])
 			fn = Fn(d, node, known)
 			fn.consts = module_consts(tree)
 			out = fn.translate()
